@@ -45,3 +45,8 @@
 (assert (and (= (dec 0) "0") (= (dec 1) "1") (= (dec 2) "2") (= (dec 3) "3") (= (dec 4) "4") (= (dec 5) "5") (= (dec 6) "6") (= (dec 7) "7") (= (dec 8) "8") (= (dec 9) "9")))
 (assert (forall ((n Int)) (! (=> (>= n 0) (and (atoiOK (dec n)) (= (atoiVal (dec n)) n) (atouOK (dec n)) (= (atouVal (dec n)) n))) :pattern ((dec n)))))
 (declare-fun isChannelID (String) Bool)    ; channeltypes.IsValidChannelID
+; root-level structure of a JSON document as functions of its bytes (encoding/json.Unmarshal into map[string]any)
+(declare-fun jsonOK (BytesV) Bool)
+(declare-fun jsonNumKeys (BytesV) Int)
+(declare-fun jsonKeys (BytesV) (Array String Bool))
+(declare-fun jsonVals (BytesV) (Array String Iface))
